@@ -1139,3 +1139,34 @@ def borrow(rep: "Report", ctx: "Ctx", mod: Any, prop: str, from_rule: str,
             n += 1
     rep.funcs_seen |= sub.funcs_seen
     return n
+
+
+_IO_CALLS = {"open", "dump", "dumps", "write", "writelines", "replace",
+             "rename", "write_text", "write_bytes", "flush", "close",
+             "makedirs", "mkdir"}
+
+
+def swallowed_io(ctx: "Ctx", entry: "FuncInfo"
+                 ) -> list[tuple["FuncInfo", ast.ExceptHandler]]:
+    """Handlers in the call closure of ``entry`` that can complete normally
+    around a ``try`` body that opens / writes / renames a file (builtin and
+    library calls, which the call graph does not resolve)."""
+    from ..core import call_name
+    bad = []
+    for q in sorted(ctx.cg.closure([entry])):
+        fi = ctx.index.functions.get(q)
+        if fi is None:
+            continue
+        for t in ast.walk(fi.node):
+            if not isinstance(t, ast.Try):
+                continue
+            io = any(isinstance(c, ast.Call) and call_name(c) in _IO_CALLS
+                     for st in t.body for c in ast.walk(st)) or any(
+                isinstance(w, ast.With) for st in t.body for w in ast.walk(st))
+            if not io:
+                continue
+            for h in t.handlers:
+                last = h.body[-1] if h.body else None
+                if not isinstance(last, ast.Raise):
+                    bad.append((fi, h))
+    return bad
